@@ -31,8 +31,11 @@ POOL = [
     {'ip': '10.0.0.10', 'peer_as': 65002, 'rid': '1.1.1.2', 'local_as': 65000},
     {'ip': '10.0.0.2', 'peer_as': 65001, 'rid': '1.1.1.3', 'local_as': 64999},
     {'ip': '192.0.2.7', 'peer_as': 65003, 'rid': '1.1.1.4', 'local_as': 65000},
+    # IPv6 neighbors, one address a textual prefix of the other up to a colon (appended: stored cases name neighbors by position)
+    {'ip': '2001:db8::1', 'peer_as': 65001, 'rid': '1.1.1.5', 'local_as': 65000, 'local_ip': '2001:db8::ffff'},
+    {'ip': '2001:db8::1:5', 'peer_as': 65001, 'rid': '1.1.1.6', 'local_as': 65000, 'local_ip': '2001:db8::ffff'},
 ]
-GHOSTS = ['10.0.0.100', '10.0.0.3', '192.0.2.70']
+GHOSTS = ['10.0.0.100', '10.0.0.3', '192.0.2.70', '2001:db8::1:50', '2001:db8::']
 PREFIXES = ['10.1.0.0/24', '10.1.1.0/24', '10.2.0.0/16']
 GHOST_PREFIXES = ['10.66.0.0/24', '10.66.1.0/24']  # only ever named by commands that are refused: must never reach a RIB
 
@@ -44,7 +47,7 @@ def matches(sel: dict, n: dict) -> bool:
     if sel['ip'] != n['ip']:
         return False
     for key, value in sel.get('terms', []):
-        have = {'peer-as': str(n['peer_as']), 'local-as': str(n['local_as']), 'router-id': n['rid'], 'local-ip': '127.0.0.1'}[key]
+        have = {'peer-as': str(n['peer_as']), 'local-as': str(n['local_as']), 'router-id': n['rid'], 'local-ip': n.get('local_ip', '127.0.0.1')}[key]
         if str(value) != have:
             return False
     return True
@@ -77,7 +80,7 @@ def selector_item(draw, neighbors):
         base = neighbors[0] if draw(st.booleans()) else draw(st.sampled_from(neighbors))
         ip = base['ip']
     terms = []
-    for key, good in (('peer-as', base['peer_as']), ('local-as', base['local_as']), ('router-id', base['rid']), ('local-ip', '127.0.0.1')):
+    for key, good in (('peer-as', base['peer_as']), ('local-as', base['local_as']), ('router-id', base['rid']), ('local-ip', base.get('local_ip', '127.0.0.1'))):
         if draw(st.integers(0, 3)) == 0:
             if draw(st.integers(0, 2)) == 0:
                 bad = {'peer-as': 64000, 'local-as': 64001, 'router-id': '9.9.9.9', 'local-ip': '127.0.0.9'}[key]
@@ -168,7 +171,7 @@ def command(draw, neighbors, version):
 
 @st.composite
 def cases(draw):
-    n = draw(st.sampled_from([1, 2, 3, 3, 4]))
+    n = draw(st.sampled_from([1, 2, 3, 3, 4, 6, 6]))
     neighbors = POOL[:n]
     version = draw(st.sampled_from([6, 6, 6, 4]))
     cmds = draw(st.lists(command(neighbors, version), min_size=1, max_size=30))
@@ -181,7 +184,7 @@ def cases(draw):
 def config(n: int) -> str:
     text = nh.process_section()
     for nb in POOL[:n]:
-        text += exa.neighbor_text(peer_ip=nb['ip'], local_ip='127.0.0.1', local_as=nb['local_as'], peer_as=nb['peer_as'], router_id=nb['rid'], families=['ipv4 unicast'], capability={'route-refresh': 'enable'}, body=nh.api_section(changes=False) + '\n  static {\n    route 10.7.0.0/24 next-hop 1.2.3.4 watchdog dog1;\n    route 10.7.1.0/24 next-hop 1.2.3.4 watchdog dog2 withdraw;\n  }')
+        text += exa.neighbor_text(peer_ip=nb['ip'], local_ip=nb.get('local_ip', '127.0.0.1'), local_as=nb['local_as'], peer_as=nb['peer_as'], router_id=nb['rid'], families=['ipv4 unicast'], capability={'route-refresh': 'enable'}, body=nh.api_section(changes=False) + '\n  static {\n    route 10.7.0.0/24 next-hop 1.2.3.4 watchdog dog1;\n    route 10.7.1.0/24 next-hop 1.2.3.4 watchdog dog2 withdraw;\n  }')
     return text
 
 
